@@ -79,11 +79,12 @@ def load_findings(prop):
 def match_finding(findings, obl_id, args):
     for f in findings:
         obls = f.get("obligations") or [f.get("obligation")]
-        if obl_id not in obls and "*" not in obls:
+        import fnmatch
+        if not any(fnmatch.fnmatchcase(obl_id, pat) for pat in obls):
             continue
         try:
             from vfw.findings_lib import HELPERS
-            if eval(f["match"], dict(HELPERS), dict(args)):
+            if eval(f["match"], dict(HELPERS, ARGS=dict(args)), dict(args)):
                 return f
         except Exception:
             continue
@@ -203,6 +204,7 @@ def main():
     n_obl = len(results)
     discharged = 0
     inconclusive = []
+    blocked = []
     violations = []
     known_lines = {}
     states = transitions = queries = validated = 0
@@ -235,6 +237,9 @@ def main():
                 last["reason"] = "no witness replayed ok concretely"
             else:
                 discharged += 1
+        if status == "INCONCLUSIVE" and r["known_hit"] and last.get("confirmed_paths", 0) == 0 and not r["disagreements"]:
+            status = "BLOCKED"
+            blocked.append({"obligation": o.id, "shard": r["shard"], "findings": sorted(set(k["finding"] for k in r["known_hit"]))})
         if status == "INCONCLUSIVE":
             inconclusive.append({"obligation": o.id, "shard": r["shard"], "reason": last.get("reason"),
                                  "paths": last.get("paths"), "disagreements": r["disagreements"][:2]})
@@ -252,8 +257,8 @@ def main():
         print("VIOLATION property=%s replay=%s" % (prop, path))
         print("  obligation=%s args=%s :: %s" % (oid, json.dumps(v["args"], sort_keys=True), v["detail"]))
     wall = time.time() - t_start
-    print("%s tier=%s obligations=%d discharged=%d inconclusive=%d violations=%d known=%d paths=%d queries=%d solver=%.1fs wall=%.1fs"
-          % (prop, tier, n_obl, discharged, len(inconclusive), len(violations), len(known_lines), states, queries, solver_s, wall))
+    print("%s tier=%s obligations=%d discharged=%d blocked_by_known_finding=%d inconclusive=%d violations=%d known=%d paths=%d queries=%d solver=%.1fs wall=%.1fs"
+          % (prop, tier, n_obl, discharged, len(blocked), len(inconclusive), len(violations), len(known_lines), states, queries, solver_s, wall))
     for inc in inconclusive:
         print("  INCONCLUSIVE %s shard=%s: %s" % (inc["obligation"], inc["shard"], inc["reason"]))
 
@@ -272,6 +277,7 @@ def main():
                 "obligations": n_obl,
                 "discharged": discharged,
                 "inconclusive": inconclusive,
+                "blocked_by_known_finding": blocked,
                 "exhaustive": len(inconclusive) == 0 and not violations,
                 "solver_queries": queries,
                 "solver_time_s": round(solver_s, 2),
